@@ -15,6 +15,7 @@ THEOREMS = ["C21_dump_accepted", "C21_prefix_eof", "C21_crash", "C21_crash_point
             "C21_two_writers_single_write", "C21_hole_at_opcode_boundary", "C21_torn_same_stream_partial",
             "C21_phase3_shape_sweep", "C21_torn_unaligned_refuted", "C21_mixture_refuted",
             "C21_crash_codegen", "C21_codegen_old_order_refuted", "C21_reader_vs_removal",
+            "C21_chunked_file_shape", "C21_two_writers_chunked_same_stream",
             "C21_fixed_routes", "C21_history_example", "C21_unrouted_refuted"]
 
 API = "/src/pymoca/backends/casadi/api.py"
